@@ -1,5 +1,5 @@
 """Which rules decide which property, with coverage floors counted on the pinned tree."""
-from . import rules_tables, rules_struct, rules_server
+from . import rules_tables, rules_struct, rules_server, rules_traverse, rules_frames, rules_features
 
 _RULES = {
     "TABLES": rules_tables.rule_tables,
@@ -21,6 +21,18 @@ _RULES = {
     "CODEC": rules_server.rule_codec,
     "BROKER": rules_server.rule_broker,
     "TEXT-SYNC": rules_server.rule_text_sync,
+    "TOKCHANGE-ARGS": rules_struct.rule_tokchange_args,
+    "TRAVERSE": rules_traverse.rule_traverse,
+    "FRAME": rules_frames.rule_frames,
+    "SCOPE-ORDER": rules_features.rule_scope_order,
+    "ENTRY-GUARD": rules_features.rule_entry_guard,
+    "LOOKUP-NOPANIC": rules_features.rule_lookup_nopanic,
+    "ENTRY-KIND": rules_features.rule_entry_kind,
+    "LEN-UNITS": rules_features.rule_len_units,
+    "SEMTOK-PAIRING": rules_features.rule_semtok_pairing,
+    "FMT-PURE": rules_features.rule_fmt_pure,
+    "COMMENT-PAIRING": rules_features.rule_comment_pairing,
+    "SAME-FINDER": rules_features.rule_same_finder,
 }
 
 _cache = {}
